@@ -145,8 +145,8 @@ Ev(e, ty, rho, C) ==
 
 \* Verdict of a well-formed program on a witness assignment and template arguments:
 \* TRUE = main finishes, FALSE = panic.
-RunSrc(items, wit, args) ==
-  LET m == MainCtx(items, G0)
-      C == [fns |-> m.G.fns, al |-> m.G.al, wit |-> wit, args |-> args]
+RunSrcM(m, wit, args) ==
+  LET C == [fns |-> m.G.fns, al |-> m.G.al, wit |-> wit, args |-> args]
   IN ~IsFail(Ev(m.body, TUnit, EmptyFn, C))
+RunSrc(items, wit, args) == RunSrcM(MainCtx(items, G0), wit, args)
 =============================================================================
